@@ -210,6 +210,16 @@ fn render(tpl: usize, prefix: &str, msg: &str, pos: u64, len: Option<u64>) -> Ve
     out
 }
 
+/// a generated history on which the crate panics outside the places the scenario itself watches: the panic is the verdict
+/// of that history, not the end of the harness (re-runs of edited histories keep calling `run_case`: there a panic may be
+/// the harness's own, on a history that refers to bars that no longer exist)
+pub fn run_case_caught(c: &Case) -> (String, String) {
+    match std::panic::catch_unwind(std::panic::AssertUnwindSafe(|| run_case(c))) {
+        Ok(x) => x,
+        Err(_) => ("panic".to_string(), "FAIL panic: an operation of this history panics inside the crate".to_string()),
+    }
+}
+
 pub fn run_case(c: &Case) -> (String, String) {
     vh::set_auto_advance_ns(0);
     vh::set_now_ns(T0);
@@ -413,7 +423,7 @@ pub fn run_rows(seed: u64, tier: &str, out: &mut Out) {
         // texts were generated for widths of at most 20 columns (at most 2w+1 = 41 characters) and at most 6-8 bars
         c.w = 60; c.h = 80;
         let case = encode(&c).replacen("MULTI", "ROWS", 1);
-        let (obs, verdict) = run_case(&c);
+        let (obs, verdict) = run_case_caught(&c);
         // keep the screens only: "r,c rows ; r,c rows" -> "rows ; rows"
         let (head, snaps) = obs.split_once("panicked=false").unwrap_or(("", ""));
         let _ = head;
@@ -433,7 +443,7 @@ pub fn run_rows_wrapping(seed: u64, tier: &str, out: &mut Out) {
         if c.w < 4 { c.w = 4 + (c.w % 3); }
         c.h = 400;
         let case = encode(&c).replacen("MULTI", "ROWS", 1);
-        let (obs, verdict) = run_case(&c);
+        let (obs, verdict) = run_case_caught(&c);
         let (_, snaps) = obs.split_once("panicked=false").unwrap_or(("", ""));
         let frames: Vec<String> = snaps.split(" ; ").map(|s| s.trim_start().split_once(' ').map_or(String::new(), |(_, r)| r.to_string())).collect();
         let frames = if snaps.trim().is_empty() { vec![] } else { frames };
@@ -472,7 +482,7 @@ pub fn run_limited(seed: u64, tier: &str, out: &mut Out) {
         let mut c = if i % 5 == 4 { gen_throttle_scenario(&mut rng) } else if rng.chance(1, 3) { gen_scenario(&mut rng) } else { gen_case(&mut rng, false) };
         if c.hz == 0 { c.hz = *rng.pick(&[1u8, 1, 20, 255]); }
         let case = encode(&c);
-        let (obs, verdict) = run_case(&c);
+        let (obs, verdict) = run_case_caught(&c);
         out.emit(&case, &format!("{obs} ORACLE {verdict}"));
     }
 }
@@ -488,7 +498,7 @@ pub fn run_small(seed: u64, tier: &str, out: &mut Out) {
         c.small = true; c.h = *rng.pick(&[2u16, 3, 4, 5, 6]); c.w = *rng.pick(&[3u16, 4, 6, 10]);
         if only.map_or(false, |o| o != i) { continue; }
         let case = encode(&c);
-        let (obs, verdict) = run_case(&c);
+        let (obs, verdict) = run_case_caught(&c);
         out.emit(&case, &format!("{obs} ORACLE {verdict}"));
     }
 }
@@ -499,7 +509,7 @@ pub fn run(seed: u64, tier: &str, out: &mut Out, bottom: bool) {
     for _ in 0..n {
         let c = if !bottom && rng.chance(1, 4) { gen_scenario(&mut rng) } else if bottom && rng.chance(1, 5) { gen_bottom_scenario(&mut rng) } else { gen_case(&mut rng, bottom) };
         let case = encode(&c);
-        let (obs, verdict) = run_case(&c);
+        let (obs, verdict) = run_case_caught(&c);
         out.emit(&case, &format!("{obs} ORACLE {verdict}"));
     }
 }
